@@ -378,7 +378,7 @@ func init() {
 			"frames after the violating one are not inspected",
 			"a quarter of the reads happen after the client's own Close (closed-by-us): the violation must still be reported; then exactly one Close (the client's own) may be on the wire",
 		},
-		NumCases:    func(tier, build string) int { return vf.Tiered(tier, 1500, 200000) },
+		NumCases:    func(tier, build string) int { return vf.Tiered(tier, 3000, 200000) },
 		Floor:       func(tier string) int { return vf.Tiered(tier, 30, 60) },
 		CaseTimeout: 60 * time.Second,
 		Run:         runC15,
